@@ -2005,6 +2005,152 @@ def compression_arms(report, R, db, S, M):
 
 
 # ---------------------------------------------------------------------------
+def partial_decorator(report, R, db, S, M, lst, reg, outer_name):
+    """The decorator factory spelt `return partial(F, register, types,
+    options)` with F(register, types, options, handler) a module-level
+    function, and <reg>(handler, *types, **options) forwarding to the same
+    `register(handler, types, options)`.  Decided here: F hands the handler
+    and the captured types to `register`, returns the handler, and gives
+    `register` its *own copy* of the captured options unless `register`
+    leaves its options argument unchanged.  False when the factory is not of
+    this form."""
+    from .pathsum import MUTATORS, struct, show
+    from .srcdb import FuncInfo
+
+    def sy(n):
+        return ('sym', n)
+    body = [b for b in lst.node.body if not (isinstance(b, ast.Expr) and
+                                             isinstance(b.value,
+                                                        ast.Constant))]
+    if len(body) != 1 or not isinstance(body[0], ast.Return) or \
+            not isinstance(body[0].value, ast.Call):
+        return False
+    call = body[0].value
+    try:
+        ent = db.resolve_dotted(lst.module, call.func)
+    except AnalysisError:
+        return False
+    if getattr(ent, 'dotted', None) != 'functools.partial' or \
+            call.keywords or len(call.args) != 4:
+        return False
+    try:
+        F = db.deref(db.resolve_dotted(lst.module, call.args[0]))
+    except AnalysisError:
+        return False
+    if not isinstance(F, FuncInfo) or len(F.all_params) != 4:
+        return False
+    va, kw = lst.node.args.vararg, lst.node.args.kwarg
+    a_reg, a_types, a_opts = call.args[1:]
+    if not (va and kw and isinstance(a_types, ast.Name) and
+            a_types.id == va.arg and isinstance(a_opts, ast.Name) and
+            a_opts.id == kw.arg and isinstance(a_reg, ast.Attribute) and
+            isinstance(a_reg.value, ast.Name) and
+            a_reg.value.id == lst.params[0]):
+        return False
+    H = db.find_method(M.conn, a_reg.attr)
+    if H is None:
+        return False
+    p_reg, p_types, p_opts, p_fn = F.all_params
+    prob = []
+    # the direct registration does what H does: either it calls H with its
+    # own arguments unchanged, or (H having been inlined into it) its path
+    # summaries equal H's, parameter for parameter
+    from . import pathsum as _ps
+    S2 = summariser(db, S.cg, opaque=[H])
+    rva, rkw = reg.node.args.vararg, reg.node.args.kwarg
+    if not (rva and rkw) or len(H.all_params) != 4:
+        return False
+
+    def signature(fi, ren):
+        out = []
+        for p in S.run(fi):
+            def r(t):
+                for a, b in ren:
+                    t = _ps.replace(t, a, b)
+                return repr(struct(t))
+            evs = []
+            for e in p.flat(('call', 'store', 'setitem', 'delitem')):
+                evs.append((e.kind, r(e.fn) if e.fn else None,
+                            tuple(r(a) for a in (e.args or ())),
+                            tuple((k, r(v)) for k, v in (e.kwargs or ())),
+                            r(e.value) if e.value is not None else None))
+            out.append((tuple((r(a), pol) for a, pol, _ in p.conds),
+                        tuple(evs), p.outcome[0]))
+        return sorted(out)
+    ren = list(zip([sy(x) for x in H.all_params],
+                   [sy(reg.all_params[0]), sy(reg.all_params[1]),
+                    sy('*' + rva.arg), sy('**' + rkw.arg)]))
+    forwards = False
+    for p in S2.run(reg):
+        cs = [e for e in p.calls() if e.calls(H)]
+        if cs:
+            forwards = True
+    if not forwards and signature(H, ren) != signature(reg, []):
+        return False
+    # does H change the options it is given?
+    changes = False
+    o = sy(H.all_params[-1])
+    for p in S.run(H):
+        for e in p.flat(('call', 'setitem', 'delitem')):
+            recv = e.fn[1] if e.kind == 'call' and e.fn[0] == 'attr' and \
+                e.fn[2] in MUTATORS else (
+                    e.base if e.kind in ('setitem', 'delitem') else None)
+            if recv is not None and struct(recv) == o:
+                changes = True
+    n = 0
+    site = F.node
+    for p in S2.run(F):
+        if not p.returns:
+            continue
+        n += 1
+        cs = [e for e in p.calls() if e.fn == sy(p_reg) or
+              struct(e.fn) == sy(p_reg)]
+        if len(cs) != 1:
+            prob.append('an application registers %d times' % len(cs))
+            continue
+        e = cs[0]
+        site = e.node
+        if len(e.args) != 3 or e.kwargs:
+            prob.append('the registration is called with %d arguments'
+                        % len(e.args))
+            continue
+        if struct(e.args[0]) != sy(p_fn):
+            prob.append('the decorated function is not the handler that is '
+                        'registered')
+        if struct(e.args[1]) != sy(p_types):
+            prob.append('the types given to the decorator factory are not '
+                        'passed on')
+        opt = e.args[2]
+        fresh = (opt[0] == 'op' and opt[1] in ('dict',) and
+                 [struct(x) for x in opt[2]] == [sy(p_opts)]) or (
+            opt[0] == 'call' and opt[1] == ('attr', sy(p_opts), 'copy'))
+        if struct(opt) == sy(p_opts):
+            if changes:
+                prob.append('the decorator hands the captured options '
+                            'object itself to %s, which removes entries '
+                            'from it: the second handler the same decorator '
+                            'is applied to is registered without the '
+                            'options (early / outgoing) given to the '
+                            'factory' % H.name)
+        elif not fresh:
+            prob.append('the options given to the decorator factory are '
+                        'not what the registration receives (%s)'
+                        % show(opt)[:50])
+        if p.value is None or struct(p.value) != sy(p_fn):
+            prob.append('the decorator does not return the function it '
+                        'decorated')
+    if not n:
+        return False
+    if prob:
+        report.violation(R, 'decorator:%s' % outer_name, F.path, site,
+                         F.qualname, '; '.join(sorted(set(prob))))
+    else:
+        report.ok(R, outer_name + '(...)(f): partial application of %s: one '
+                  'registration of f with the captured types and a copy of '
+                  'the options, f returned' % F.name)
+    return True
+
+
 def decorator_form(report, R, db, S, M, outer_name, reg_name, option_keys):
     """Connection.<outer>(*types, **options) returns a decorator; applying it
     registers the handler exactly as <reg>(handler, *types, **options) would
@@ -2019,6 +2165,9 @@ def decorator_form(report, R, db, S, M, outer_name, reg_name, option_keys):
         raise AnalysisError('Connection.%s vanished' % outer_name)
     reg = M.conn_method(reg_name)
     inner = [f for f in db.funcs if f.outer is lst]
+    if not inner and partial_decorator(report, R, db, S, M, lst, reg,
+                                       outer_name):
+        return
     if len(inner) != 1:
         raise AnalysisError('Connection.%s: expected one nested ' % outer_name +
                             'decorator, found %d' % len(inner), lst.node,
